@@ -154,9 +154,13 @@ PLAN["C15"] = dict(
 PLAN["C07"] = dict(
     level="other",
     functions=[(GFA, "GFA.write_gfa#L-line-from-start"), (GFA, "GFA.write_gfa#L-line-from-end"), (GFA, "GFA.write_gfa#both-loops"), (GFA, "GFA.write_gfa#links-of-one-node"),
-               (GFA, "GFA.sort_bo_no"), (GFA, "GFA.add_edge"), (GFA, "GFA.add_node")],
+               (GFA, "GFA.sort_bo_no"), (GFA, "GFA.add_edge"), (GFA, "GFA.add_node"), (GFA, "GFA.read_graph#s-lines"), (GFA, "GFA.read_graph#l-lines")],
     lemmas=[gfa_c.lemma_exactly_once],
-    explanation="PROVED: sort_bo_no (three loop nests: bucket by BO, sort each bucket by NO, concatenate in sorted BO order) returns every node of the set "
+    explanation="PROVED: read_graph's two loops over the lines of the file (any number, any interleaving of record types): every S line becomes a node "
+                "(first occurrence of an id wins), L lines are collected in file order and nothing else is, every L line between existing segments "
+                "becomes a link stored at both ends with the sides of E_DIR and the overlap of its '<n>M' column, its tags (or the [0] sentinel) under the "
+                "declaring end's key; every new link comes from such a line; links already there are kept; the adjacency invariant and 'link tags "
+                "only for existing links' hold afterwards. sort_bo_no (three loop nests: bucket by BO, sort each bucket by NO, concatenate in sorted BO order) returns every node of the set "
                 "exactly once, ascending in (BO, NO) - so, with the next fragment, the S lines of order_gfa's output are in (BO, NO) order. For one node, the link lines written are exactly one L line (fields, signs, overlap, tags or none for the [0] sentinel) per entry "
                 "of its start set, then of its end set, whose neighbour is among the written nodes and whose tags are stored under THIS end's key - "
                 "nothing else (ghost enumerations of the two sets, prefix counts, source map); with the edge_tags state in which every link has "
@@ -168,11 +172,14 @@ PLAN["C07"] = dict(
                 "add_edge stores exactly the declared link at both ends. BOUNDED: exactly-once emission per declared link (edge_tags keying), "
                 "S-before-L, (BO,NO) order, tag round trip, CSV rows, load->write->independent-reader equality.",
     trusted_base=["'\\t'.join / split round trip (assumed)", "Node.to_gfa_line caller view (an S line with the node id second); nodes[k].id == k (representation invariant, precondition)",
-                  "read_graph (file -> graph, incl. 'every link has tags under exactly one key'), CSV: BOUNDED stand-in only",
+                  "read_graph is verified as two statement-range fragments over the list of lines (opening the plain / gzip file, int() of a malformed overlap, and that no link is declared twice - needed for 'tags under exactly one key' - are outside them); CSV: BOUNDED stand-in only",
+                  "f(*lst, x): the list is spread over the remaining positional parameters (TypeError obligation on its length); an int stored in a string-typed list is a reserved code (int_code / code_int)",
                   "sort_bo_no: BO / NO values are the ints order_gfa stores (('i', <int>) tag values); sorted() = permutation + order (assumed); prefix offsets OFF defined over the sorted keys",
                   "an int stored in a string-typed list (the [0] sentinel) is represented by a reserved string code"],
     mutations=[
         dict(name="add_node swaps tag type and value", file=GFA, old="                self[node_id].tags[tag[0]] = (tag[1], tag[2])", new="                self[node_id].tags[tag[0]] = (tag[2], tag[1])", expect="add_node", functions=[(GFA, "GFA.add_node")], quick=False),
+        dict(name="read_graph keeps an L line when only one of its segments exists", file=GFA, old="            if e[0] not in self or e[2] not in self:", new="            if e[0] not in self and e[2] not in self:", expect="read_graph#l-lines", functions=[(GFA, "GFA.read_graph#l-lines")]),
+        dict(name="read_graph takes the sequence column as the segment id", file=GFA, old="                    self.add_node(line[1], line[2], line[3:])", new="                    self.add_node(line[2], line[2], line[3:])", expect="read_graph#s-lines", functions=[(GFA, "GFA.read_graph#s-lines")], quick=False),
         dict(name="sort_bo_no sorts the buckets by BO instead of NO", file=GFA, old='                separate_bubbles[bo], key=lambda x: int(self.nodes[x].tags["NO"][1])', new='                separate_bubbles[bo], key=lambda x: int(self.nodes[x].tags["BO"][1])', expect="sort_bo_no", functions=[(GFA, "GFA.sort_bo_no")]),
         dict(name="write_gfa looks the end-side tags up under the start-side key", file=GFA, old="                        tags = self.edge_tags[(n1, 1, n[0], n[1])]", new="                        tags = self.edge_tags[(n1, 0, n[0], n[1])]", expect="links-of-one-node", functions=[(GFA, "GFA.write_gfa#links-of-one-node")]),
         dict(name="write_gfa writes an S line after the links of a node", file=GFA, old='            for e in edges:\n                f.write(e + "\\n")\n\n        f.close()', new='            for e in edges:\n                f.write(e + "\\n")\n            f.write(self.nodes[n1].to_gfa_line() + "\\n")\n\n        f.close()', expect="write_gfa#both-loops", functions=[(GFA, "GFA.write_gfa#both-loops")]),
